@@ -4,8 +4,9 @@
 (* order the variables were registered.  The rule leaves choices open (any one  *)
 (* variable may be interpolated; any registered partition with the largest      *)
 (* first block), so Allowed(...) is a SET of metrics and an observation is       *)
-(* accepted when it equals one of them.  Metrics are carried scaled by 2 per    *)
-(* requested axis (interpolation halves).                                        *)
+(* accepted when it equals one of them.  An interpolated metric is carried as   *)
+(* the integer array of neighbour sums together with its number m of halvings   *)
+(* (true value = arr / 2^m).                                                     *)
 EXTENDS Calls, FiniteSetsExt
 
 KeySet(e) == SeqToSet(e.key)
@@ -47,12 +48,10 @@ Interpolable(grid, dims, adims) == \A k \in DOMAIN grid.axes :
   LET pe == PosIn(grid.axes[k], dims)  pa == PosIn(grid.axes[k], adims) IN
   pe = {} \/ pa = {} \/ pe = pa \/ \A f \in pe, t \in pa : ValidShift(f, t)
 
-\* value of entry j at the array's position, scaled by 2^|key|
+\* value of an entry at the array's position: [dims, arr, m] with true value arr / 2^m
 EntryValue(grid, e, adims) ==
   LET iv == InterpAxes(grid, [shape |-> e.shape, flat |-> e.flat], e.dims, adims, 1, 0)
-      f == 2 ^ (Len(e.key) - iv.m)
-  IN [dims |-> iv.dims, arr |-> [shape |-> iv.arr.shape, flat |-> [q \in DOMAIN iv.arr.flat |-> f * iv.arr.flat[q]]],
-      interpolated |-> iv.m > 0]
+  IN [dims |-> iv.dims, arr |-> iv.arr, m |-> iv.m]
 
 \* product of several metrics, laid out on the array's dimensions (in the array's order)
 ProductOf(vals, adims, ashape) ==
@@ -64,7 +63,9 @@ ProductOf(vals, adims, ashape) ==
       Mul(S, idx) == IF S = {} THEN 1
                      ELSE LET v == CHOOSE x \in S : TRUE IN
                           Get(v.arr, [q \in 1..Len(v.dims) |-> idx[IndexOf(odims, v.dims[q])]]) * Mul(S \ {v}, idx)
-  IN [dims |-> odims, arr |-> Build(oshape, LAMBDA idx : Mul(vals, idx))]
+      RECURSIVE SumM(_)
+      SumM(S) == IF S = {} THEN 0 ELSE LET v == CHOOSE x \in S : TRUE IN v.m + SumM(S \ {v})
+  IN [dims |-> odims, arr |-> Build(oshape, LAMBDA idx : Mul(vals, idx)), m |-> SumM(vals)]
 
 \* every way of picking one variable per block
 RECURSIVE Picks(_, _, _)
